@@ -81,6 +81,16 @@ CHECKS = {
         "4 ulp tolerance (1e-12 relative with a scaler); multiply-reflected MIRROR values only need to be inside the bounds.",
         "DESIGN.md §3 C10",
     ),
+    "C13": (
+        "exploration",
+        "Hypothesis over bound kinds; closed-form reference (v-lb, v-ub, max(lb-v, v-ub, 0)) in the user domain; tracker acceptance predicate",
+        "Random points inside and outside random variable bounds with every finite/infinite mix per side, 0-3 linear and 0-3 non-linear constraints "
+        "of all five bound kinds, with and without variable/objective/constraint scaling transforms, evaluated by a real evaluator step in a Plan; all "
+        "nine reported arrays are compared with the formula (infinities exactly), a value outside a finite bound must have a positive violation, and "
+        "'last' trackers with tolerances None/0/1e-10/0.25/5 must accept exactly the results whose violations are within the tolerance.",
+        "1e-9 relative tolerance; tracker acceptance only judged without transforms and away from the tolerance boundary.",
+        "DESIGN.md §3 C13",
+    ),
 }
 
 NOT_YET = "check not built yet in this session (planned, see DESIGN.md §3)"
